@@ -29,6 +29,7 @@ from .sem import expander, ctext, want, xt, bind, calls, paths, block_paths, spl
 RULES = {
     "C13.a": "available_fcts: inverse names are keys, the table is an involution, names match functions, paired functions are mathematical inverses (function classes log/exp/log1p/expm1)",
     "C13.b": "get_fct_inv builds the reverse transformer (swapped functions, inverse name, swapped permutation); transform passes X through",
+    "C13.d": "classes_[j] is the label of probability column j: the order of classes_ agrees with the column placement of the permutation's probability branch (positions kept -> mapped in place; columns moved to the rank of their original label -> classes_ sorted)",
     "C13.c": "TransformedTarget*2: inner model trained on transformer_.transform(X, y)[1]; every returned prediction goes through get_fct_inv().transform",
 }
 
@@ -124,17 +125,72 @@ def classify_fn(e: ast.AST):
     return None
 
 
+def _materialise_table(af: FunctionInfo) -> Optional[ast.Dict]:
+    """{k: v for <targets> in [<literal entries>]} written out as a dict literal
+    (single path, single generator without filter, literal list/tuple of entries)"""
+    from engine.util import clone_ast
+
+    ps = [p for p in paths(af) if p.ret not in (None, RAISE)]
+    if len(ps) != 1 or not isinstance(ps[0].ret, ast.DictComp):
+        return None
+    dc = ps[0].ret
+    if len(dc.generators) != 1 or dc.generators[0].ifs or not isinstance(dc.generators[0].iter, (ast.List, ast.Tuple)):
+        return None
+    g = dc.generators[0]
+    keys, vals = [], []
+    for e in g.iter.elts:
+        m: Dict[str, ast.AST] = {}
+
+        def bind_(t, v):
+            if isinstance(t, ast.Name):
+                m[t.id] = v
+                return True
+            if isinstance(t, (ast.Tuple, ast.List)) and isinstance(v, (ast.Tuple, ast.List)) and len(t.elts) == len(v.elts):
+                return all(bind_(a, b) for a, b in zip(t.elts, v.elts))
+            if isinstance(t, ast.Subscript):
+                return False
+            return False
+
+        tgt = g.target
+        if not bind_(tgt, e):
+            # comprehension variables normalised to one name with subscripts: _c0[0], _c0[1]
+            if isinstance(tgt, ast.Name) and isinstance(e, (ast.Tuple, ast.List)):
+                m = {tgt.id: e}
+            else:
+                return None
+
+        class S(ast.NodeTransformer):
+            def visit_Subscript(s_, n):
+                n = s_.generic_visit(n)
+                if isinstance(n.value, (ast.Tuple, ast.List)) and isinstance(n.slice, ast.Constant) and isinstance(n.slice.value, int) and -len(n.value.elts) <= n.slice.value < len(n.value.elts):
+                    return n.value.elts[n.slice.value]
+                return n
+
+            def visit_Name(s_, n):
+                if isinstance(n.ctx, ast.Load) and n.id in m:
+                    return clone_ast(m[n.id])
+                return n
+
+        keys.append(S().visit(clone_ast(dc.key)))
+        vals.append(S().visit(clone_ast(dc.value)))
+    return ast.Dict(keys=keys, values=vals)
+
+
 def check_a(ck, repo):
     ci = repo.cls(MOD, "FunctionReciprocalTransformer")
     af = ci.methods.get("available_fcts")
     if af is None:
         raise AnalysisError("anchor vanished: FunctionReciprocalTransformer.available_fcts")
     rets = [r for r in own_nodes(af.node) if isinstance(r, ast.Return) and isinstance(r.value, ast.Dict)]
-    if len(rets) != 1:
+    lit = rets[0].value if len(rets) == 1 else None
+    if lit is None:
+        # the same table written as a comprehension over a literal list of entries
+        lit = _materialise_table(af)
+    if lit is None:
         ck.unknown("C13.a", af, "return {...}", "table is not a dict literal")
         return
     table: Dict[str, Tuple[ast.AST, str]] = {}
-    for k, v in zip(rets[0].value.keys, rets[0].value.values):
+    for k, v in zip(lit.keys, lit.values):
         name = const_value(k)
         if not isinstance(name, str) or not (isinstance(v, ast.Tuple) and len(v.elts) == 2 and isinstance(const_value(v.elts[1]), str)):
             ck.unknown("C13.a", af, k, "entry is not name: (function, inverse name)")
@@ -348,6 +404,60 @@ def check_b(ck, repo):
         ck.verdict(perm_src is not None and okl, "C13.b", pfit, f"permutation_ = {{u: shuffled[{R}[u]]}}, shuffled = permutation(arange(n))", "permutation_ is a bijection of the distinct targets onto 0..n-1", "permutation_ is no longer built as a bijection onto 0..n-1: the numbering is not composed with a permutation of arange(n)")
 
 
+ORDER_WRAPPERS = ("numpy.sort(", "sorted(", "numpy.unique(", "numpy.array(sorted(", "numpy.asarray(sorted(")
+
+
+def _strip_order(t: str) -> str:
+    for w in sorted(ORDER_WRAPPERS, key=len, reverse=True):
+        if t.startswith(w) and t.endswith(")" * w.count("(")):
+            return t[len(w) : -w.count("(")]
+    return t
+
+
+def check_d(ck, repo):
+    """classes_[j] is the label of probability column j: the label branch of the
+    permutation transformer maps labels position by position, the probability
+    branch MOVES columns (column i goes to the rank of its inverse-mapped label);
+    classes_ must be ordered like the columns predict_proba returns"""
+    pc = repo.cls(MOD, "PermutationReciprocalTransformer")
+    ptr = pc.methods["transform"]
+    y = ptr.named_params[2]
+    moves = []
+    for l in [l for l in own_nodes(ptr.node) if isinstance(l, ast.For) and isinstance(l.target, ast.Name)]:
+        for x in ast.walk(l):
+            if isinstance(x, ast.Assign) and isinstance(x.targets[0], ast.Subscript) and isinstance(x.targets[0].slice, ast.Tuple) and len(x.targets[0].slice.elts) == 2 and isinstance(x.value, ast.Subscript) and _t(x.value.value) == y:
+                moves.append((l, x))
+    if len(moves) != 1:
+        ck.unknown("C13.d", ptr, "yp[:, new_perm[i]] = y[:, i]", f"{len(moves)} column moves found in the probability branch")
+        return
+    l, x = moves[0]
+    iv = l.target.id
+    dst = x.targets[0].slice.elts[1]
+    identity = _t(dst) == iv
+    ascending = True
+    if not identity:
+        # the destination is a rank computed from a sort of (mapped label, key) pairs: ascending unless reversed
+        srt = [c for c in own_nodes_incl_lambda(ptr.node) if isinstance(c, ast.Call) and ((isinstance(c.func, ast.Attribute) and c.func.attr == "sort") or (isinstance(c.func, ast.Name) and c.func.id == "sorted"))]
+        if not srt:
+            ck.unknown("C13.d", ptr, x, "the destination of a probability column is not its position and no sort defines it: column order not understood")
+            return
+        for c in srt:
+            rv = kwarg(c, "reverse")
+            if rv is not None and const_value(rv) is not False:
+                ascending = False
+    ci = repo.cls(TP, "TransformedTargetClassifier2")
+    cl = ci.methods.get("classes_")
+    if cl is None:
+        raise AnalysisError("anchor vanished: TransformedTargetClassifier2.classes_")
+    W = "self.transformer_.get_fct_inv().transform(None, self.classifier_.classes_)[1]"
+    got = sorted(set(_t(inline_helpers(repo, cl, p.ret)) if isinstance(p.ret, ast.AST) else str(p.ret) for p in paths(cl) if p.ret != RAISE))
+    if identity:
+        ck.verdict(got == [W], "C13.d", cl, f"classes_ = {got}", "probability columns keep their position, classes_ lists the labels in the same positions", f"the probability branch keeps the inner classifier's column order, but classes_ is {got}: classes_[j] is not the label of column j")
+        return
+    ordered = [g_ for g_ in got if g_ != W and _strip_order(g_) == W]
+    ck.verdict(bool(got) and len(ordered) == len(got) and ascending, "C13.d", cl, f"classes_ = {[g_[:70] for g_ in got]}", "the probability branch moves column i to the rank of its original label: classes_ lists the original labels in increasing order, like the columns", f"the probability/decision columns are re-ordered by the rank of their original label (`{src_of(x)}`), but classes_ returns {[g_[:90] for g_ in got]} - the original labels in the order of the INNER classifier's classes: classes_[j] is not the label of probability column j whenever the permutation is not the identity")
+
+
 def check_c(ck, repo):
     ex = expander(repo)
     for cname, inner, is_reg in (("TransformedTargetRegressor2", "regressor_", "True"), ("TransformedTargetClassifier2", "classifier_", "False")):
@@ -385,6 +495,7 @@ def check_c(ck, repo):
             INV = "self.transformer_.get_fct_inv()"
             if m.name == "classes_":
                 want_ = f"{INV}.transform(None, self.classifier_.classes_)[1]"
+                got = sorted(set(_strip_order(g_) for g_ in got))
             else:
                 Xp = m.named_params[1]
                 xt_ = f"self.transformer_.transform({Xp}, None)[0]"
@@ -408,6 +519,8 @@ def run(ck):
     check_a(ck, repo)
     check_b(ck, repo)
     check_c(ck, repo)
+    check_d(ck, repo)
+    ck.require_count("C13.d", 1, "classes_ order vs probability columns")
     ck.require_count("C13.a", 10, "six entries x (involution, name/function, inverse class)")
     ck.require_count("C13.b", 8, "fit, get_fct_inv, transform of both transformers")
     ck.require_count("C13.c", 10, "fit flow and read-side flow of both meta-estimators")
